@@ -120,12 +120,20 @@ def packAvcc (hevc : Bool) (inp : Bytes) : GoM (List Bytes) :=
   let (nals, err) := Nalu.splitNaluAvcc inp
   if err then .ok [] else packAvccLoop hevc nals
 
+/-- the audio payload packers on a sub-slice of the message (`Payload[1:]` / `Payload[2:]`): such a slice is never `nil`,
+    so an EMPTY one is packed too (the packers test `in == nil`, not `len(in) == 0`) -/
+def audioPayloadPack (k : Rtp.Kind) (inp : Bytes) (maxSize : Nat) : List Bytes :=
+  if maxSize = 0 then []
+  else match k with
+    | .aac => [[0, 16, b8 (inp.length / 32), b8 (inp.length % 32 * 8)] ++ inp]
+    | _ => [inp]
+
 /-- `RtpPacker.Pack(AvPacket{Timestamp, PayloadType, Payload})` -/
 def packWith (p : Packer) (audio : Bool) (pt : Int) (ts : Nat) (payload : Bytes) : GoM (Packer × List Ev) := do
   let payloads ← (match p.kind with
     | .avc => packAvcc false payload
     | .hevc => packAvcc true payload
-    | k => Rtp.payloadPack k payload maxPayloadSize)
+    | k => (.ok (audioPayloadPack k payload maxPayloadSize) : GoM (List Bytes)))
   let pkts := Rtp.packLoop (pt % 256).toNat (rtpTs ts p.rate) 0 p.seq payloads
   return ({ p with seq := (p.seq + payloads.length) % 65536 }, pkts.map (Ev.rtp audio))
 
@@ -255,7 +263,9 @@ def audioDefault (s : St) (c : Nat) : St :=
 /-- `FeedRtmpMsg`, the length checks: `none` = "rtmp msg too short, ignore" -/
 def gate (s : St) (m : Msg) : GoM (Option St) := do
   if m.typeId = tAudio then
-    if m.payload.length ≤ 2 then return none
+    -- the AAC header has two bytes, the other formats (G.711, Opus) one
+    if m.payload.length ≤ 1 then return none
+    if m.payload.length = 2 ∧ (← audioCodecId m) = 10 then return none
     if s.audioPt = Sdp.ptUnknown then return some (audioDefault s (← audioCodecId m))
     return some s
   else if m.typeId = tVideo then
